@@ -11,6 +11,18 @@ CHECKS = {
  "C02": ("exploration", "differential property-based testing against a reference decoder written from the statement, on structurally mutated records re-signed by an independent signer",
          "Differential test of decode/from_str under all four key types against an independent reference decoder, on valid records and 39 kinds of structural mutation that are re-signed (over the literal sequence and over lenient reconstructions) so that only the structural rule can reject; size boundary 299..303 by construction. Sampled, with every mutation x reconstruction cell instantiated.",
          "reference decoder is the oracle (own RLP/keccak; ECDSA by libsecp256k1 cross-checked with k256); open regions (65-byte keys, malformed inner list bytes, list-typed other-scheme entry) excluded and counted", "5/C02"),
+ "C05": ("exploration", "stateful property-based testing (history = generated call sequence, interpreter, invariant after every step) + bounded-exhaustive sequences; oracle = independent verifier and reference decoder",
+         "After every Ok step of generated call histories over all 22 mutators (arbitrary, ill-typed and malformed arguments; own or other key; six key families incl. a custom variable-length-signature scheme) the record is re-verified independently, re-decoded by the library and by the reference decoder, and its node id / key entry are compared with the signing key. All sequences of length <= 2 (thorough: 3) over a 46-operation alphabet from 5 boundary records are enumerated.",
+         "signer keys of the record's own scheme; one recorded known finding (CombinedKey ed25519 signer + valid secp256k1 entry) is excluded by a classifier and counted", "5/C05"),
+ "C06": ("fault_enumeration", "fault injection at every signing call of generated and bounded-exhaustive call histories; oracle = observational equality of pre- and post-state on every Err",
+         "Each explored history is run fault-free and then once per signing call with that call failing (EnrKey wrapper), in addition to the naturally failing calls (size, sequence overflow, ill-typed reserved values, unsupported id). Every Err must leave seq, node id, signature, pairs, encoding and key unchanged and the record verifying. The evidence lists the (mutator x cause) cells reached; the health check requires the reachable ones.",
+         "faults are injected at the signer only (the only fallible dependency of an update); panics are C03's", "5/C06"),
+ "C07": ("exploration", "stateful property-based testing with boundary enumeration of sequence numbers; oracle = arithmetic on the observed pre-state + independent parse of the encoding",
+         "Every boundary sequence number is combined with every alphabet operation; random histories add compound updates and set_seq. +1 per successful update, exact set_seq, failure (with the right error kind when the model finds no other cause) at 2^64-1, and wire round trip of the number are checked at every step.",
+         "'no other cause' comes from the map model", "5/C07"),
+ "C08": ("exploration", "model-based stateful property-based testing: sorted-map reference model predicts pairs, return values and admissible error kinds per step from the observed pre-state",
+         "A sorted-map model written from the statement predicts, for every step of generated and bounded-exhaustive histories, the resulting pairs, the return value and the admissible error kinds; silent regions are admitted either way. Every mutator is exercised >= 200 times per quick run (health check).",
+         "model is the oracle; regions where the listed properties are silent (other scheme's key name, malformed inner list bytes, CombinedKey precedence, variable-length signatures near the limit) admit either outcome", "5/C08"),
  "C16": ("exploration", "property-based testing: exhaustive slice lengths + seeded random strings vs a reference hex parser, proptest shrinking",
          "Every slice length 0..=64 and patterned 32-byte values are enumerated; tens of thousands of mutated hex strings and JSON texts are compared with a reference parser written from the statement. Complete for the length domain, sampled for strings.",
          "serde_json as JSON implementation; strings sampled, not exhaustive", "5/C16"),
